@@ -3,7 +3,7 @@ state machine, offset storage, and a ledger of everything that happened."""
 from __future__ import annotations
 
 from .cluster import (
-    COORDINATOR_NOT_AVAILABLE, FENCED_INSTANCE_ID, GROUP_AUTHORIZATION_FAILED,
+    COORDINATOR_LOAD_IN_PROGRESS, COORDINATOR_NOT_AVAILABLE, FENCED_INSTANCE_ID, GROUP_AUTHORIZATION_FAILED,
     ILLEGAL_GENERATION, INCONSISTENT_GROUP_PROTOCOL, INVALID_SESSION_TIMEOUT, MEMBER_ID_REQUIRED,
     NOT_COORDINATOR, REBALANCE_IN_PROGRESS, UNKNOWN_MEMBER_ID,
 )
@@ -237,7 +237,8 @@ class GroupCoordinatorModel:
                 members.append({"member_id": mid, "group_instance_id": mm.instance_id,
                                 "metadata": dict(mm.protocols)[g.protocol]})
         self.led("join_resp", group=g.name, member=m.id, generation=g.generation, code=0,
-                 leader=g.leader, client=m.client_id, protocol=g.protocol, version=v)
+                 leader=g.leader, client=m.client_id, protocol=g.protocol, version=v,
+                 conn=getattr(getattr(req, "conn", None), "id", None), corr=req.correlation_id)
         respond({"error_code": 0, "generation_id": g.generation, "protocol_name": g.protocol,
                  "leader": g.leader, "member_id": m.id, "members": members})
 
@@ -388,6 +389,9 @@ class GroupCoordinatorModel:
             respond({"error_code": code, "assignment": assignment})
 
         code = self.cluster.coordinator_check(broker, 0, name)
+        if code == COORDINATOR_LOAD_IN_PROGRESS:
+            # GroupCoordinator.handleSyncGroup: a loading group tells the member to rejoin
+            return reply(REBALANCE_IN_PROGRESS)
         if code:
             return reply(code)
         g = self.groups.get(name)
@@ -436,6 +440,10 @@ class GroupCoordinatorModel:
             respond({"error_code": code})
 
         code = self.cluster.coordinator_check(broker, 0, name)
+        if code == COORDINATOR_LOAD_IN_PROGRESS:
+            # GroupCoordinator.handleHeartbeat: "the group is still loading, so
+            # respond blindly" with NONE
+            return reply(0)
         if code:
             return reply(code)
         g = self.groups.get(name)
